@@ -372,7 +372,7 @@ def extracted_resource(repo):
 
 class C06(Prop):
     id = "C06"
-    props_file = ["Props/C06.v", "Props/C06_Bridge.v", "Props/C06_Examples.v"]
+    props_file = ["Props/C06.v", "Props/C06_Bridge.v", "Props/C06_BridgeLoop.v", "Props/C06_Examples.v"]
     coq_imports = ["From ONL Require Import Res.Resource."]
     n_quick = 500
     n_thorough = 8000
@@ -385,7 +385,8 @@ class C06(Prop):
                        "triggered but unprocessed, e.g. right after a yielded release), processes that end while holding a slot or "
                        "queueing, delays from {0,1,2} so that operations coincide; non-trivial = at least 12 actions and at "
                        "least one request had to wait in the queue; distinct by hash of the case")
-    trusted_base = ["the driver (props/c06.py) turns the observed execution into the model's action list: operations are logged by the "
+    trusted_base = ["vlib/translate.py (Python ast, fail closed; tables in props/res_tie.py) regenerates coq/Gen/Extracted_scan.v (the initialisation and ONE iteration of the scan loops BaseResource._trigger_put / _trigger_get) and Extracted_baseres.v (Put / Get .__init__, .cancel, Request.__exit__, Release.__init__, PriorityRequest.__init__, SortedQueue.append) from the tree under test before every build; the C06_gen_* theorems of Props/C06_BridgeLoop.v run the generated iteration on the queue (fuel 1 + its length, shown sufficient) and bridge it to the hand-written model",
+                    "the driver (props/c06.py) turns the observed execution into the model's action list: operations are logged by the "
                     "driver processes as they issue them, ProcessEvent micro-steps by inspecting env._queue[0] before every env.step(), "
                     "the state after a micro-step by a callback appended behind the resource's own callback",
                     "CPython list.sort/sorted are stable (the model's ssort is a stable insertion sort)",
@@ -410,6 +411,8 @@ class C06(Prop):
         from vlib import framework as fw
         from vlib import translate as tr
         tr.write_if_changed(os.path.join(fw.COQ, "Gen", "Extracted_resource.v"), extracted_resource(fw.REPO))
+        from props import res_tie
+        res_tie.write_extracted(fw.REPO, fw.COQ)
 
     # ---- generation --------------------------------------------------------------------------------
     def gen_case(self, rng, tier):
